@@ -111,8 +111,8 @@ def export_txt(obj, file_name, two_dimensional=False, **kwargs):
         raise exch.GeomdlException("There are no control points to save!")
 
     # Check the usage of two_dimensional flag
-    if obj.pdimension == 1 and two_dimensional:
-        # Silently ignore two_dimensional flag
+    if obj.pdimension != 2 and two_dimensional:
+        # Silently ignore two_dimensional flag (it only works for the surfaces)
         two_dimensional = False
 
     # File delimiters
